@@ -43,7 +43,13 @@ def random_strings(min_size: int = 0, max_size: int = 10) -> Iterator:
         yield "".join(choices(population, k=length))
 
 
-def random_floats(lower: float = -1e-6, upper: float = 1e6) -> Iterator:
+def random_floats(lower: float | None = None, upper: float | None = None) -> Iterator:
+    # defaults -1e-6 and 1e6, widened so that they never cross the bound that was given
+    if lower is None:
+        lower = -1e-6 if upper is None else min(-1e-6, 2 * upper)
+    if upper is None:
+        upper = max(1e6, 2 * lower)
+
     yield lower
     yield upper
     # TODO: maybe first generate_true some smaller float
